@@ -186,7 +186,7 @@ mod imp {
     }
 
     fn viol(seed: u64, sc: &Scenario, class: String, detail: String) -> Violation {
-    let class = if sc.case.has_vardct && !class.starts_with("panic:") { format!("{class}+vardct") } else { class };
+    let class = sc.case.tag(class);
         Violation { property: "C20".into(), check: "c20".into(), class, detail, seed, scenario: serde_json::to_value(sc).unwrap() }
     }
 
